@@ -162,7 +162,8 @@ theorem loadText_nf (path : String) (text : List UInt8) (ds : List Directive) (h
   split at h
   · cases h
   · split at h
-    · cases h
+    · unfold loadFailed at h
+      split at h <;> cases h
     · exact loadItems_go_nf _ [] ds h (fun t ht => by cases ht)
 
 end Knut.FromSyntax
